@@ -20,12 +20,6 @@ import (
 
 type featureSet map[string]bool
 
-// sizedInt: integer primitives whose Go type is not `int` (an Enum written with Go int literals
-// does not have the element type)
-func sizedInt(p string) bool {
-	return p == "Int32" || p == "Int64" || p == "UInt" || p == "UInt32" || p == "UInt64"
-}
-
 func firstValid(name string) (rune, bool) {
 	if i := strings.Index(name, ":"); i > 0 {
 		name = name[:i]
@@ -153,9 +147,6 @@ func (w *walker) attr(a *dg.Attr, objDepth int, inCollection bool) {
 	case "array":
 		if t.Elem != nil {
 			e := t.Elem
-			if e.T.Kind == "prim" && sizedInt(e.T.Prim) && e.V != nil && len(e.V.Enum) > 0 {
-				w.f["sized-int-enum-array-elements"] = true
-			}
 			w.attr(e, objDepth, true)
 		}
 	case "map":
@@ -529,7 +520,6 @@ type rule struct {
 }
 
 var rules = []rule{
-	{"sized-int-enum-array-elements", "sized-int-enum-array-elements", []string{"gen-panic"}, nil, `reflect\.Set: value of type int is not assignable to type u?int(32|64)? @ expr\.\(\*Array\)\.MakeSlice`},
 	{"map-key-not-comparable", "map-key-not-primitive", []string{"build-error"}, nil, `invalid map key type`},
 	{"int-bounds-less-than-one-apart", "int-bounds-less-than-one-apart", []string{"gen-panic"}, nil, `integer divide by zero @ expr\.byMinMax`},
 	{"array-maxlength-below-two", "array-maxlength-below-two", []string{"gen-panic"}, nil, `makeslice: len out of range @ expr\.byLength`},
